@@ -81,6 +81,53 @@ def _reemit(src):
     return ast.unparse(ast.parse(src)) + "\n"
 
 
+def _rename_locals(src):
+    """every function-local variable (assigned in the function, not a parameter, not global/nonlocal) gets a
+    new name; attribute names, keyword names and parameters keep theirs.  Re-emitted with ast.unparse."""
+    tree = ast.parse(src)
+
+    class R(ast.NodeTransformer):
+        def __init__(self, mapping):
+            self.mapping = mapping
+
+        def visit_Name(self, node):
+            if node.id in self.mapping:
+                node.id = self.mapping[node.id]
+            return node
+
+    for fn in [n for n in ast.walk(tree) if isinstance(n, (ast.FunctionDef, ast.AsyncFunctionDef))]:
+        args = fn.args
+        params = set(a.arg for a in args.posonlyargs + args.args + args.kwonlyargs)
+        if args.vararg:
+            params.add(args.vararg.arg)
+        if args.kwarg:
+            params.add(args.kwarg.arg)
+        banned = set(params)
+        assigned = set()
+        for n in ast.walk(fn):
+            if isinstance(n, (ast.Global, ast.Nonlocal)):
+                banned |= set(n.names)
+            elif isinstance(n, (ast.FunctionDef, ast.AsyncFunctionDef, ast.Lambda)) and n is not fn:
+                a2 = n.args
+                banned |= set(a.arg for a in a2.posonlyargs + a2.args + a2.kwonlyargs)
+                if isinstance(n, ast.FunctionDef):
+                    banned.add(n.name)
+            elif isinstance(n, ast.ClassDef):
+                banned.add(n.name)
+            elif isinstance(n, ast.ExceptHandler) and n.name:
+                banned.add(n.name)
+            elif isinstance(n, (ast.Import, ast.ImportFrom)):
+                banned |= set((al.asname or al.name).split(".")[0] for al in n.names)
+            elif isinstance(n, ast.Name) and isinstance(n.ctx, ast.Store):
+                assigned.add(n.id)
+        # only the outermost function of a nest is rewritten (inner ones are covered by it)
+        names = sorted(x for x in assigned - banned if not x.startswith("__"))
+        if not names:
+            continue
+        R(dict((x, x + "_rn") for x in names)).visit(fn)
+    return ast.unparse(tree) + "\n"
+
+
 def run_selftest(pid, chk, seed=0):
     res = {"mutants": 0, "killed": 0, "refused": 0, "missed": [], "not_applicable": [], "variants": 0, "silent": 0, "alarms": [], "detail": []}
     matrix = {}
@@ -117,7 +164,7 @@ def run_selftest(pid, chk, seed=0):
         if not os.path.exists(path):
             continue
         src = open(path).read()
-        for name, fn in (("shifted-lines", _shift_lines), ("re-emitted-by-ast.unparse", _reemit)):
+        for name, fn in (("shifted-lines", _shift_lines), ("re-emitted-by-ast.unparse", _reemit), ("locals-renamed", _rename_locals)):
             try:
                 new = fn(src)
                 compile(new, rel, "exec")
@@ -126,6 +173,13 @@ def run_selftest(pid, chk, seed=0):
             res["variants"] += 1
             v, keys, c2 = _verdict(pid, {rel: new})
             same = v == base_v and keys == base_keys and sorted(o["key"] for o in c2.obligations) == base_ob
+            if name == "locals-renamed":
+                # instance keys may legitimately mention a local's name; what matters is the verdict
+                same = v == base_v and len(c2.obligations) == len(base_ob) if v != "refused" else False
+                if v == "refused":
+                    res.setdefault("refused_variants", []).append("%s of %s: %s" % (name, rel, keys[:1]))
+                    res["variants"] -= 1
+                    continue
             if same:
                 res["silent"] += 1
             else:
